@@ -936,6 +936,18 @@ where
         let child_doc = cst_to_doc(child, ctx, allocator);
 
         if !seen_cond && seen_if {
+            // A condition that is not parenthesised must not be glued to the keyword
+            // (`if gate {` would otherwise be printed as `ifgate {`).
+            let is_paren = matches!(
+                node,
+                mimium_lang::compiler::parser::green::GreenNode::Internal {
+                    kind: SyntaxKind::ParenExpr,
+                    ..
+                }
+            );
+            if !is_paren {
+                result = result.append(allocator.space());
+            }
             // This is the condition expression - keep it flat (don't break inside)
             // We use group() on the condition to try to keep it on one line
             result = result.append(child_doc.group());
